@@ -82,6 +82,61 @@ C04(c) == IF Returned(c)
           THEN C04_Junctions(c) \cup C04_Branches(c) \cup C04_Loads(c) \cup C04_Feeders(c) \cup C04_NoSupply(c) \cup C04_Prune(c)
           ELSE C04_NoSupply(c)
 
+(* ------------------------------ C01 ---------------------------------- *)
+(* Mass balance from the REPORTED flows at every junction that has a pressure result:          *)
+(* what leaves through branch ends + consumption - injection + reported feed-in = 0.           *)
+(* A pipe end behind a junction-pipe valve is attached to the valve's internal node, not to    *)
+(* the junction, and the valve stands in for it.                                               *)
+AtFrom(net, e, l) == IF e.tbl = "pipe" THEN PipeEnd(net, e, e.a) = Jn(l) ELSE e.a = l
+AtTo(net, e, l) == IF e.tbl = "pipe" THEN PipeEnd(net, e, e.b) = Jn(l)
+                   ELSE IF IsPipeValve(e) THEN FALSE ELSE e.b = l
+BalanceTerms(net, l) ==
+    SetToSeq({<<"f", e.tbl, e.lab, e.mf>> : e \in {e \in ERows(net) : e.hydall = "num" /\ AtFrom(net, e, l)}}
+             \cup {<<"t", e.tbl, e.lab, e.mt>> : e \in {e \in ERows(net) : e.hydall = "num" /\ AtTo(net, e, l)}}
+             \cup {<<"n", n.tbl, n.lab, IF n.tbl = "source" THEN Neg(n.m) ELSE n.m>> :
+                       n \in {n \in NRows(net) : n.j = l /\ IsNum(n.m)}})
+C01_Tol == 40          \* ticks of 1e-9 kg/s per term (linear-solve round-off; mass-flow tolerance is 1e-5)
+C01_Junctions(c) ==
+    {<<"C01.junction_balance", "", ToString(j.lab)>> : j \in {j \in JRows(c.net) : IsNum(j.p) /\
+        LET T == BalanceTerms(c.net, j.lab)
+            tot == SumSeq([i \in DOMAIN T |-> T[i][4]])
+        IN \E i \in DOMAIN T : ~IsNum(T[i][4]) \/ ~AbsLeq(tot, C01_Tol * (Len(T) + 1))}}
+(* over the whole net: total reported feed-in = total served consumption - injection *)
+C01_Global(c) ==
+    LET T == SetToSeq({<<n.tbl, n.lab, IF n.tbl = "source" THEN Neg(n.m) ELSE n.m>> : n \in {n \in NRows(c.net) : IsNum(n.m)}})
+        tot == SumSeq([i \in DOMAIN T |-> T[i][3]])
+    IN IF \E e \in ERows(c.net) : e.tbl \in CircPumpTables THEN {}      \* closed loops have no external feed-in
+       ELSE IF ~AbsLeq(tot, C01_Tol * (Len(T) + 1)) THEN {<<"C01.global_balance", "", "">>} ELSE {}
+C01(c) == IF Returned(c) THEN C01_Junctions(c) \cup C01_Global(c) ELSE {}
+
+(* ------------------------------ C03 ---------------------------------- *)
+(* prescribed values are met (ticks of 1e-9; the runs are solved to 1e-10) *)
+C03_Tol == 300
+JP(net, l) == (CHOOSE j \in JRows(net) : j.lab = l).p
+(* pressure-fixing feeders of junction l: in-service p/pt ext_grids and circulation pumps feeding into l *)
+FixValues(net, l) ==
+    SetToSeq({<<"eg", n.lab, n.pset>> : n \in {n \in NERows(net, "ext_grid") : n.j = l /\ n.svc /\ n.typ \in PTypes}}
+             \cup {<<e.tbl, e.lab, e.set2>> : e \in {e \in ERows(net) : e.tbl \in CircPumpTables /\ e.b = l /\ e.svc /\ e.typ \in PTypes}})
+C03_Fixed(c) ==
+    {<<"C03.fixed_pressure", "", ToString(j.lab)>> : j \in {j \in JRows(c.net) : IsNum(j.p) /\
+        LET F == FixValues(c.net, j.lab) IN Len(F) > 0 /\
+            (* mean of the fixed values: n * p = sum *)
+            ~AbsLeq(Sub(SumSeq([i \in DOMAIN F |-> j.p]), SumSeq([i \in DOMAIN F |-> F[i][3]])), C03_Tol * Len(F))}}
+(* a controlled junction must not also be fixed by a feeder or by a second active controller (over-determined) *)
+WellPosedPC(net, e) == Len(FixValues(net, e.cj)) = 0 /\
+    \A f \in ERows(net) : (f.tbl = "press_control" /\ f.ca /\ f.svc /\ f.cj = e.cj) => f.lab = e.lab
+C03_Branches(c) ==
+    LET R == HydReached(c.net) IN
+    {<<"C03.set_point", e.tbl, ToString(e.lab)>> : e \in {e \in ERows(c.net) : e.hydall = "num" /\
+        \/ (e.tbl = "flow_control" /\ e.ca /\ ~Near(e.mf, e.set1, C03_Tol))
+        \/ (e.tbl = "circ_pump_mass" /\ ~Near(e.mf, e.set1, C03_Tol))
+        \/ (e.tbl = "circ_pump_pressure" /\ ~Near(Sub(e.pt, e.pf), e.set1, C03_Tol))
+        \/ (e.tbl = "press_control" /\ e.ca /\ e.svc /\ IsNum(JP(c.net, e.cj)) /\ WellPosedPC(c.net, e)
+                /\ ~Near(JP(c.net, e.cj), e.set1, C03_Tol))}}
+C03_Loads(c) ==
+    {<<"C03.load", n.tbl, ToString(n.lab)>> : n \in {n \in NRows(c.net) : n.tbl \in LoadTables /\ IsNum(n.m) /\ ~Near(n.m, n.want, 2)}}
+C03(c) == IF Returned(c) THEN C03_Fixed(c) \cup C03_Branches(c) \cup C03_Loads(c) ELSE {}
+
 (* ------------------------------ C05 (result side) -------------------- *)
 (* a failed run leaves no number in any result table *)
 C05_FailedEmpty(c) ==
@@ -92,6 +147,8 @@ C05_FailedEmpty(c) ==
 
 Failures(c) ==
     (IF "C04" \in Rng(c.check) THEN C04(c) ELSE {})
+    \cup (IF "C01" \in Rng(c.check) THEN C01(c) ELSE {})
+    \cup (IF "C03" \in Rng(c.check) THEN C03(c) ELSE {})
     \cup (IF "C05" \in Rng(c.check) THEN C05_FailedEmpty(c) ELSE {})
 
 (* ------------------------------ machine ------------------------------ *)
